@@ -38,6 +38,7 @@ pub enum Op {
     BookRemoveCol { sheet: usize, col: u32, n: u32 },
     ColWidth { sheet: usize, col: u32, w: f64 },
     RowHeight { sheet: usize, row: u32, h: f64 },
+    Table { sheet: usize, name: String, top: u32 },
 }
 
 impl Op {
@@ -69,6 +70,7 @@ impl Op {
             Op::BookRemoveCol { .. } => "book_remove_col",
             Op::ColWidth { .. } => "col_width",
             Op::RowHeight { .. } => "row_height",
+            Op::Table { .. } => "table",
         }
     }
 }
@@ -210,6 +212,18 @@ pub fn apply(book: &mut Spreadsheet, op: &Op) -> bool {
         Op::RowHeight { sheet, row, h } => sheet_mut(book, *sheet).map(|s| {
             s.get_row_dimension_mut(row).set_height(*h);
         }),
+        Op::Table { sheet, name, top } => sheet_mut(book, *sheet).map(|s| {
+            // a 2x2 table with a header row; header cells must hold the column names
+            let r0 = *top;
+            s.get_cell_mut((6u32, r0)).set_value_string(format!("{}_x", name));
+            s.get_cell_mut((7u32, r0)).set_value_string(format!("{}_y", name));
+            s.get_cell_mut((6u32, r0 + 1)).set_value_number(1);
+            s.get_cell_mut((7u32, r0 + 1)).set_value_number(2);
+            let mut t = umya::structs::Table::new(name, ((6u32, r0), (7u32, r0 + 1)));
+            t.add_column(umya::structs::TableColumn::new(&format!("{}_x", name)));
+            t.add_column(umya::structs::TableColumn::new(&format!("{}_y", name)));
+            s.add_table(t);
+        }),
     }
     .is_some()
 }
@@ -256,8 +270,8 @@ pub struct GenCfg {
     pub sheets: usize,
     pub ncells: usize,
     pub alpha: usize,
-    /// weights: text, rich, num, bool, formula, remove, style, hyperlink, comment, merge, defined name
-    pub w: [u32; 11],
+    /// weights: text, rich, num, bool, formula, remove, style, hyperlink, comment, merge, defined name, table
+    pub w: [u32; 12],
 }
 
 pub fn gen_cell_op(rng: &mut Rng, cfg: &GenCfg, tag: &str) -> Op {
@@ -304,7 +318,8 @@ pub fn gen_cell_op(rng: &mut Rng, cfg: &GenCfg, tag: &str) -> Op {
             let r = 10 + rng.below(10);
             Op::Merge { sheet, range: format!("A{}:B{}", r * 2, r * 2 + 1) }
         }
-        _ => Op::DefinedName { sheet, name: format!("name_{}_{}", tag.replace(['#', ':'], "_"), rng.below(100)), address: format!("$A${}", 1 + rng.below(9)) },
+        10 => Op::DefinedName { sheet, name: format!("name_{}_{}", tag.replace(['#', ':'], "_"), rng.below(100)), address: format!("$A${}", 1 + rng.below(9)) },
+        _ => Op::Table { sheet, name: format!("T_{}", tag.replace(|c: char| !c.is_ascii_alphanumeric(), "_")), top: 20 + 3 * rng.below(10) as u32 },
     }
 }
 
